@@ -225,6 +225,34 @@ func ruleR8(c *Ctx, prop string) {
 
 // activationsParameterless: the activation table only holds tanh/sigmoid/relu-like unary functions.
 func (c *Ctx) activationsParameterless() bool {
+	if c.activationsParameterlessAST() {
+		return true
+	}
+	// however the table is stored: ops.GetActivation, walked for the names of ONNX's parameterised activations in
+	// their usual spellings, refuses every one of them
+	var get *ssa.Function
+	for _, f := range c.libFns {
+		if fnPkgPath(f) == pkgOps && f.Parent() == nil && f.Signature.Recv() == nil && f.Name() == "GetActivation" {
+			get = f
+		}
+	}
+	st := c.libInit()
+	if get == nil || len(get.Params) != 1 || len(st.failed) > 0 {
+		return false
+	}
+	for _, base := range []string{"Affine", "LeakyRelu", "ThresholdedRelu", "ScaledTanh", "HardSigmoid", "Elu"} {
+		for _, name := range []string{base, strings.ToLower(base), strings.ToUpper(base)} {
+			p := &pinterp{c: c, budget: 50000, objects: true, globals: st.globals}
+			res, _ := p.run(get, []pval{{k: pStr, s: name}}, 0, st.heap.clone())
+			if p.aborted || len(res) != 2 || !nonNilKind(res[1].k) {
+				return false
+			}
+		}
+	}
+	return true
+}
+
+func (c *Ctx) activationsParameterlessAST() bool {
 	p := c.pkgByPath[pkgOps]
 	for _, f := range p.Syntax {
 		for _, d := range f.Decls {
